@@ -90,7 +90,7 @@ def gen(tier, rng):
         if p.mldsa:
             for mode, ctx in (("pure", None), ("pure", b"ctx"), ("pure", bytes(255)), ("sha256", b"c"), ("sha512", None), ("sha512", bytes(rng.randrange(256) for _ in range(255)))):
                 pre = 2 + (len(ctx) if ctx else 0) + (0 if mode == "pure" else 11)
-                for n in ([5] + ([l for l in lengths(p, pre)][-3:] if mode == "pure" else [])):
+                for n in ([5] + ([l for l in lengths(p, pre)][-3:] if mode == "pure" else [32, 64])):
                     msg = bytes(rng.randrange(256) for _ in range(n))
                     c = ctx if ctx is not None else 0
                     if mode == "pure":
@@ -98,6 +98,11 @@ def gen(tier, rng):
                     else:
                         out.append(Case("ml_prehash_sign", api, [sk, msg, c, 0, 0 if mode == "sha256" else 1, b""], ["in_domain", "api", "crate-only"], aux=("api", mprime(mode, ctx, msg), None)))
             out.append(Case("ml_sign", api, [sk, b"hedged", b"ctx", 1, tape], ["in_domain", "api", "scripted-rng", "crate-only"], aux=("api", mprime("pure", b"ctx", b"hedged"), tape)))
+            for cx in (None, b"", b"ctx"):   # hedged through every wrapper arm (absent / empty / non-empty context, both pre-hashes)
+                for md, phi in (("sha256", 0), ("sha512", 1)):
+                    out.append(Case("ml_prehash_sign", api, [sk, b"hedged", cx if cx is not None else 0, 1, phi, tape], ["in_domain", "api", "scripted-rng", "crate-only"],
+                                    aux=("api", mprime(md, cx, b"hedged"), tape)))
+                out.append(Case("ml_sign", api, [sk, b"hedged2", cx if cx is not None else 0, 1, tape], ["in_domain", "api", "scripted-rng", "crate-only"], aux=("api", mprime("pure", cx, b"hedged2"), tape)))
         else:
             for n in (0, 1, 94, 200):
                 msg = bytes(rng.randrange(256) for _ in range(n))
